@@ -103,15 +103,40 @@ fn interpret(words: &[u32], nout: usize, reg_count: usize, mem_count: usize, var
     Ok(out)
 }
 
-fn emit<const N: usize>(w: &mut dyn Write, id: usize, p: &Prog, pts: &[Vec<f32>]) {
+/// Returns the number of lines written (1, or 2 when the tape could also be serialised after a simplification)
+fn emit<const N: usize>(w: &mut dyn Write, id: usize, p: &Prog, pts: &[Vec<f32>]) -> usize {
     let d: VmData<N> = match make_vmdata::<N>(p) {
         Ok(d) => d,
         Err(m) => {
             let j = json!({"ev": "bytecode", "id": id, "n": N, "skip": true, "msg": m, "ok": true, "words": [], "ssa": [], "ops": [], "regs": 0, "mems": 0, "nout": 0, "evals": [], "err": ""});
             writeln!(w, "{j}").unwrap();
-            return;
+            return 1;
         }
     };
+    // the tape after a simplification (variables may have dropped out of use: the child keeps the parent's numbering, so
+    // the inputs it still reads need not be numbered densely): traced at the first point, serialised like any other
+    let child: Option<VmData<N>> = {
+        use fidget_core::eval::{Function, TracingEvaluator};
+        let f = fidget_core::vm::GenericVmFunction::<N>::from(make_vmdata::<N>(p).unwrap());
+        vharness::catch(std::panic::AssertUnwindSafe(|| {
+            let tape = f.point_tape(Default::default());
+            let mut e = fidget_core::vm::GenericVmFunction::<N>::new_point_eval();
+            let trace = pts.first().and_then(|pt| e.eval(&tape, pt).ok().and_then(|(_, t)| t.cloned()));
+            trace.and_then(|t| f.simplify(&t, Default::default(), &mut Default::default()).ok()).map(|c| {
+                // a copy of the child's data through the exact serializer (VmData is not Clone)
+                vharness::tapes::clone_vmdata::<N>(c.data())
+            })
+        })).ok().flatten()
+    };
+    emit_data::<N>(w, id, d, pts);
+    if let Some(c) = child {
+        emit_data::<N>(w, id + 1, c, pts);
+        return 2;
+    }
+    1
+}
+
+fn emit_data<const N: usize>(w: &mut dyn Write, id: usize, d: VmData<N>, pts: &[Vec<f32>]) {
     let rec = read_vmdata(&d);
     let bc = vharness::catch(std::panic::AssertUnwindSafe(|| Bytecode::new(&d)));
     let f = fidget_core::vm::GenericVmFunction::<N>::from(d);
@@ -174,8 +199,7 @@ fn main() {
         let pts = pgen::input_points(&mut rng, *mode, p.nvars, 3);
         // budgets small enough to force memory traffic, and the default
         let n = [3usize, 4, 5, 8, 12, 255][k % 6];
-        with_n!(n, emit(&mut file, id, p, &pts));
-        id += 1;
+        id += with_n!(n, emit(&mut file, id, p, &pts));
     }
     file.flush().unwrap();
     vharness::evalx::exit_on_build_failures("c15");
